@@ -514,6 +514,8 @@ Value Search::search(Position& position, Depth depth, Value alpha, Value beta,
         if (doFutilityPruning && moveIsQuiet
                 && !position.move_gives_check(move))
         {
+            // a pruned move is assumed to fail low, not to lose the king
+            bestValue = std::max(bestValue, alpha);
             continue;
         }
 
